@@ -107,7 +107,8 @@ CHECKS = {
             "never_skips_trivia) are modelled too (OptPassSilent.v, OptPassSkip.v) and tied exactly, alone and in short "
             "sequences (~45000 table comparisons per quick run). `inline silent` is PROVED for every grammar "
             "(C02_inline_silent_pass_preserves_meaning: invariant over the in-place fold, using that the validator is "
-            "monotone in its fuel, C02_validator_monotone_in_fuel); `skip` is NOT proved and squash_choice is not "
+            "monotone in its fuel, C02_validator_monotone_in_fuel); C02_proved_passes_compose: any subset, order or repetition of the three proved passes preserves every "
+            "parse; `skip` is NOT proved and squash_choice is not "
             "modelled: for these two the property rests on the validation of the real output; "
             "the exporter reads the compiled regex text of an OptimizedChoice and maps it to terminals (trusted). The fused SKIP rule is "
             "validated too (OptSkip.ochk_skip; C02_fused_skip_rule_is_implicit_skipping: one call of SKIP = pest's implicit "
